@@ -917,6 +917,12 @@ func (db *DB) InsertOrUpdateMany(objects ...Object) (n int, err error) {
 			return
 		}
 
+		// an object which cannot be serialized must make the batch
+		// fail before anything is inserted
+		if _, err = json.Marshal(o); err != nil {
+			return
+		}
+
 		// check that temporary index made of objects to insert
 		// validates object's constraints
 		if err = tmpIndex.insertOrUpdate(o); err != nil {
@@ -967,6 +973,12 @@ func (db *DB) InsertOrUpdate(o Object) (err error) {
 	schema.transform(o)
 	if err := o.Validate(); err != nil {
 		return validationErr(o, err)
+	}
+
+	// an object which cannot be serialized must be rejected before it
+	// modifies index, cache or pending writes
+	if _, err = json.Marshal(o); err != nil {
+		return
 	}
 
 	return db.insertOrUpdate(schema, o, true)
